@@ -1,1 +1,2 @@
 pub mod g01;
+pub mod templates;
